@@ -71,4 +71,15 @@ Contig(tfdt, dur) == /\ Len(tfdt) = Len(dur)
 FirstGap(tfdt, dur) == IF Len(tfdt) # Len(dur) THEN 0
                        ELSE LET bad == { i \in 1..(Len(tfdt) - 1) : tfdt[i + 1] # tfdt[i] + dur[i] } IN
                             IF bad = {} THEN -1 ELSE CHOOSE i \in bad : \A j \in bad : i <= j
+
+\* C15.contig, declared form: t, d = expanded SegmentTimeline entries; st, tfdt = status and first decode time of the segment
+\* served for each entry. Every entry is served at its declared start and starts where the previous one ends.
+DeclaredEntryOK(t, d, st, tfdt, i) == /\ st[i] = 200 /\ tfdt[i] = t[i]
+                                       /\ (i < Len(t) => t[i + 1] = t[i] + d[i])
+DeclaredOK(t, d, st, tfdt) == /\ Len(d) = Len(t) /\ Len(st) = Len(t) /\ Len(tfdt) = Len(t)
+                              /\ \A i \in 1..Len(t) : DeclaredEntryOK(t, d, st, tfdt, i)
+FirstBadDeclared(t, d, st, tfdt) ==
+   IF ~(Len(d) = Len(t) /\ Len(st) = Len(t) /\ Len(tfdt) = Len(t)) THEN 0
+   ELSE LET bad == { i \in 1..Len(t) : ~DeclaredEntryOK(t, d, st, tfdt, i) } IN
+        IF bad = {} THEN -1 ELSE CHOOSE i \in bad : \A j \in bad : i <= j
 =============================================================================
